@@ -1,12 +1,12 @@
-\* M+G (thorough, exhaustive, flat): <= 4 members over the size classes 1, 2, 8, pointer; scalars and arrays of 2; both pointer sizes
+\* M+G (thorough, exhaustive, flat): every struct / packed struct / union of <= 3 members over the size classes 1, 2, 8, pointer and a byte string; scalars and arrays of 3; both pointer sizes. Invariants of the model are checked on every case and every case is emitted for replay.
 CONSTANTS
-  RawT = {"B", "h", "q", "P"}
-  ArrN = {2}
+  RawT = {"B", "h", "q", "P", "s"}
+  ArrN = {3}
   NestN = {2}
   Ords = {""}
   DefOrds = {""}
   DefKinds = {"struct", "packed", "union"}
-  MaxF = 4
+  MaxF = 3
   MaxIF = 0
   MinF = 1
   MaxDepth = 0
